@@ -139,6 +139,16 @@ func verifyHeader(
 	clientState *ClientState,
 	header Header,
 ) error {
+	// the block hash does not cover the revision number of the tibc height, so a
+	// relayer could file a valid header under another revision: consensus states
+	// are keyed by the full height and must stay in the client's revision
+	if header.Height.RevisionNumber != clientState.Header.Height.RevisionNumber {
+		return errorsmod.Wrapf(
+			clienttypes.ErrInvalidHeader,
+			"header revision number %d differs from the client's %d",
+			header.Height.RevisionNumber, clientState.Header.Height.RevisionNumber,
+		)
+	}
 	found := store.Get(EthHeaderIndexKey(header.Hash(), header.Height.RevisionHeight))
 	if found != nil {
 		return errorsmod.Wrapf(
